@@ -62,6 +62,16 @@ func TestWorker(t *testing.T) {
 			t.Fatalf("no case list for check %q", check)
 		}
 		cases = ls(tier, seed)
+		if fam := os.Getenv("VERIF_FAMILY"); fam != "" {
+			// development aid: restrict a run to one family
+			var keep []Case
+			for _, c := range cases {
+				if c.Family == fam {
+					keep = append(keep, c)
+				}
+			}
+			cases = keep
+		}
 		for i := range cases {
 			cases[i].Idx = i
 			cases[i].Check = check
